@@ -195,11 +195,22 @@ func (l *Life) CorpusOpen(scenario string) int {
 // per-input quantity of the merge - deletion bitmap, renumbering, dictionary - must be taken from
 // the right input), under the cardinality-dependent chunk modes.
 func (l *Life) LeanCrossScenario(tag string) {
-	l.Reset(1024, tag)
+	l.Reset(100, tag)
 	l.light = true
 	n := 1900 + l.r.Intn(300)
-	a := l.Build(boundaryBatch(l, n, 0, []int{700 + l.r.Intn(50), 3}), 1026)
-	b := l.Build(boundaryBatch(l, n, 10000, []int{1027 + l.r.Intn(8), 2052 + l.r.Intn(8), 1024, 40}), 1026)
+	gaps := func(b []Doc) []Doc {
+		// a doc-value field that is present in some doc-value chunks only (whole chunks without it follow
+		// populated ones): documents [0,150) and [400,450) with a chunk size of 100
+		for i := range b {
+			if i < 150 || (i >= 400 && i < 450) {
+				b[i].Fields = append(b[i].Fields, FieldInst{Name: B("h"), DV: true, Len: 1, Toks: []Tok{{T: B(fmt.Sprintf("h%d", i%7)), Fr: 1}}})
+				b[i].Canon()
+			}
+		}
+		return b
+	}
+	a := l.Build(gaps(boundaryBatch(l, n, 0, []int{700 + l.r.Intn(50), 3})), 1026)
+	b := l.Build(gaps(boundaryBatch(l, n, 10000, []int{1027 + l.r.Intn(8), 2052 + l.r.Intn(8), 1024, 40})), 1026)
 	c := l.Build(boundaryBatch(l, n/2, 20000, []int{1}), 1025)
 	if a == nil || b == nil || c == nil {
 		return
